@@ -205,8 +205,7 @@ Definition batch_finding (e : eng) (ops : list bop) (c : rclass) : N :=
   match e with
   | ETiKV => if has_empty_write ops && rclass_eqb c ROther then 1 else 0
   | EBadger | EWrapBadger => if written_before_delcur ops [] && rclass_eqb c ROk then 2 else 0
-  | EMem | EWrapMem =>
-      if existsb (fun o => match o with DelCur _ [] _ => true | _ => false end) ops && rclass_eqb c ROk then 3 else 0
+  | EMem | EWrapMem => 0
   end.
 
 (* one step: contract state, held record -> new contract state and held record, or a verdict *)
